@@ -16,7 +16,8 @@ static void nx_choice(void)
 static const char *pcodes[] = {
 	"a", "Cab", "g", "Cha", "Cai", "Chi", "Cja", "Cak", "CjCaCbk", "*a", "*l", "c", "Aab", "CGa?Gb", "+d", "AGab",
 	"CG*aG*b", "2a", "j", "k", "i", "h", "*b", "Cj*a", "CcCkc", "Ce*a", "C*ai", "AChai", "G*a", "CGAabGc", "Cm*a", "+f",
-	"n", "o", "*n", "Cno", "+o", "*g", "Ca*g", "C+ga", "?g",	/* bracket expressions with a multi-byte member: a match never starts inside a character */
+	"n", "o", "*n", "Cno", "+o", "*g", "Ca*g", "C+ga", "?g",
+	"p", "q", "+p", "Cpq",	/* a character class whose meaning depends on ignore-case */	/* bracket expressions with a multi-byte member: a match never starts inside a character */
 };
 #define NPC ((int) (sizeof(pcodes) / sizeof(pcodes[0])))
 
